@@ -409,9 +409,18 @@ def standard_check(mod, tier, seed, replay=None):
         if len(impl_out) != len(reqs):
             res.notes.append('implementation adapter produced %d answers for %d requests; stderr tail: %s'
                              % (len(impl_out), len(reqs), impl_err[-600:]))
-            print('note: adapter failure; machinery error', file=sys.stderr)
-            finish(res, mod.ASSUMPTIONS, mod.RULE)
-            sys.exit(2)
+            if len(impl_out) < len(reqs) and len(impl_out) > 0:
+                # the adapter process died while answering request number len(impl_out): the library did something no
+                # adapter survives (hard crash, endless loop killed by the timeout).  That request is judged as a CRASH
+                # answer; the requests after it were not reached and are dropped from this run.
+                k = len(impl_out)
+                impl_out = impl_out + ['CRASH adapter process died: ' + ' '.join(impl_err.split())[-160:]]
+                cases = cases[:k + 1]
+                reqs = reqs[:k + 1]
+            else:
+                print('note: adapter failure; machinery error', file=sys.stderr)
+                finish(res, mod.ASSUMPTIONS, mod.RULE)
+                sys.exit(2)
         model_out = None
         if exe:
             rc_m, model_out, model_err = run_driver(exe, [mod.model_req(c) for c in cases] if hasattr(mod, 'model_req') else reqs)
